@@ -36,7 +36,7 @@ def discharge(o, tier):
   o.result = r
   o.status = r.status
   cross = None
-  if tier == 'thorough' and r.status == 'discharged' and os.environ.get('NPVC_CVC5', '1') == '1':
+  if tier == 'thorough' and r.status == 'discharged' and r._solver is not None and os.environ.get('NPVC_CVC5', '1') == '1':
     cross = smt.cvc5_check(r._solver, 20)
   d = o.summary()
   d['reason'] = r.reason
@@ -53,15 +53,18 @@ def discharge(o, tier):
 def run_unit(args):
   """unit = ('contract', target) | ('lemma', name) ; returns a json-able dict"""
   kind, name, tier = args
+  case = None
+  if kind == 'contract' and '@@' in name:
+    name, case = name.split('@@')
   if not _state:
     _init()
   t0 = time.time()
-  out = dict(unit=name, kind=kind, obligations=[], undecided=None, error=None, report={})
+  out = dict(unit=name + ('@@' + case if case else ''), kind=kind, obligations=[], undecided=None, error=None, report={})
   try:
     C = _state['C']
     if kind == 'contract':
       con = REGISTRY[name]
-      obls, rep = body_obligations(_state['prog'], con, _state['lib'], loop_hook=C.LOOP_HOOK)
+      obls, rep = body_obligations(_state['prog'], con, _state['lib'], loop_hook=C.LOOP_HOOK, only_case=case)
       rep = {k: (sorted(v) if isinstance(v, set) else v) for k, v in rep.items()}
       out['report'] = rep
     else:
@@ -78,7 +81,20 @@ def run_unit(args):
   return out
 
 
+def expand(units):
+  """contracts with many entry cases are split into one unit per case (parallelism)"""
+  out = []
+  for kind, name in units:
+    if kind == 'contract' and len(REGISTRY[name].cases) > 3:
+      out += [(kind, '%s@@%s' % (name, c.name)) for c in REGISTRY[name].cases]
+    else:
+      out.append((kind, name))
+  return out
+
+
 def run_units(units, tier='quick', jobs=None):
+  import contracts  # noqa: make sure the registry is populated in the parent too
+  units = expand(units)
   jobs = jobs or min(16, max(1, len(units)))
   if jobs == 1 or len(units) <= 1:
     return [run_unit(u + (tier,)) for u in units]
